@@ -130,6 +130,7 @@ func (m *Machine) ResetPath(ctx *sym.Ctx, model sym.Model) {
 	m.Scratch = map[string]interface{}{}
 	m.Domains = map[string][2]int64{}
 	m.Lossy = nil
+	m.Hooks = Hooks{}
 	if m.Called == nil {
 		m.Called = map[string]int{}
 	}
@@ -272,7 +273,7 @@ func (m *Machine) global(g *ssa.Global) *value {
 				return p
 			}
 		} else if !allowedUninit(pkg.Pkg.Path(), g.Name()) {
-			abort("read of package state that is not initialised: %s.%s", pkg.Pkg.Path(), g.Name())
+			abort("read of package state that is not initialised: %s.%s (stack: %s)", pkg.Pkg.Path(), g.Name(), m.Stack())
 		}
 	}
 	cell := zero(deref(g.Type()))
